@@ -70,3 +70,65 @@ Example chain_example : chain_ok 0 3 [0; 9; 1]%nat [3; 0; 1]%nat 2 [1; 0]%nat /\
 Proof.
   split; [cbn; repeat split; auto; lia|]. repeat constructor; cbn; intuition discriminate.
 Qed.
+
+(* ---------------------------------------------------------------- x / y stay partial inverses along the flip chain *)
+
+Section FlipInv.
+Variables (r n : nat) (pred : list nat).
+
+(* y determines x on assigned columns, except possibly at the column in transit *)
+Definition PIh (x y : list nat) (hole : option nat) : Prop :=
+  forall j i, (j < n)%nat -> Some j <> hole -> getn y j n = i -> i <> n -> (i < n)%nat /\ getn x i n = j.
+
+Theorem aug_flip_inverse : forall chain j1 x y fuel,
+  NoDup chain -> length x = n -> length y = n -> chain_ok r n pred x j1 chain -> (length chain <= fuel)%nat ->
+  PIh x y (Some j1) -> free n y r ->
+  exists x' y', aug_flip fuel r pred j1 x y n = Some (x', y') /\ length x' = n /\ length y' = n /\
+    PIh x' y' None /\ (exists j, (j < n)%nat /\ getn y' j n = r) /\
+    getn y' j1 n <> n /\ (forall j, getn y j n <> n -> getn y' j n <> n) /\
+    (forall j, getn y' j n = getn y j n \/ In (getn y' j n) chain).
+Proof.
+  induction chain as [|i rest IH]; intros j1 x y fuel ND Lx Ly OK Hf PI Fr; [destruct OK|].
+  cbn [chain_ok] in OK. destruct OK as [Hj [Hp [Hi D]]].
+  destruct fuel as [|f]; [cbn in Hf; lia|]. cbn [aug_flip]. rewrite Hp.
+  inversion ND as [|? ? Nin ND']; subst.
+  set (i := getn pred j1 n) in *.
+  assert (Xi : forall k, getn (upd x i j1) k n = if (k =? i)%nat then j1 else getn x k n).
+  { intros k. rewrite getn_upd, Lx. replace (i <? n)%nat with true by (symmetry; apply Nat.ltb_lt; auto). rewrite andb_true_r. reflexivity. }
+  assert (Yj : forall k, getn (upd y j1 i) k n = if (k =? j1)%nat then i else getn y k n).
+  { intros k. rewrite getn_upd, Ly. replace (j1 <? n)%nat with true by (symmetry; apply Nat.ltb_lt; auto). rewrite andb_true_r. reflexivity. }
+  assert (Step : forall hole', (forall j, (j < n)%nat -> Some j <> hole' -> j <> j1 -> getn y j n = i -> i = n) ->
+            PIh (upd x i j1) (upd y j1 i) hole').
+  { intros hole' Hh j i0 Hj0 Nh Ey Ne. rewrite Yj in Ey. rewrite Xi.
+    destruct (Nat.eqb_spec j j1) as [->|NEj].
+    - subst i0. split; auto. rewrite Nat.eqb_refl. reflexivity.
+    - destruct (PI j i0 Hj0 ltac:(congruence) Ey Ne) as [A B]. split; auto.
+      destruct (Nat.eqb_spec i0 i) as [Ei|_]; [|exact B]. exfalso. apply Ne. rewrite Ei. apply (Hh j); auto. congruence. }
+  destruct rest as [|i2 rest2].
+  - (* last link: i = r, the free row *)
+    replace (i =? r)%nat with true by (symmetry; apply Nat.eqb_eq; exact D).
+    eexists _, _. split; [reflexivity|]. split; [rewrite upd_length; auto|]. split; [rewrite upd_length; auto|].
+    split; [|split; [|split; [|split]]].
+    + apply Step. intros j Hj0 _ _ Ey. exfalso. apply (Fr j Hj0). rewrite Ey. exact D.
+    + exists j1. split; auto. rewrite Yj, Nat.eqb_refl. exact D.
+    + rewrite Yj, Nat.eqb_refl. lia.
+    + intros j Hn. rewrite Yj. destruct (j =? j1)%nat; [lia|exact Hn].
+    + intros j. rewrite Yj. destruct (j =? j1)%nat; [right; left; reflexivity|left; reflexivity].
+  - destruct D as [Nr OK']. destruct (Nat.eqb_spec i r) as [E|_]; [contradiction|].
+    assert (OK2 : chain_ok r n pred (upd x i j1) (getn x i n) (i2 :: rest2)).
+    { apply (chain_ok_ext r n pred x); auto. intros k Hk. rewrite Xi.
+      destruct (Nat.eqb_spec k i) as [->|NE]; [contradiction|reflexivity]. }
+    assert (PI2 : PIh (upd x i j1) (upd y j1 i) (Some (getn x i n))).
+    { apply Step. intros j Hj0 Nh NEj Ey. destruct (Nat.eq_dec i n) as [|Ne]; auto. exfalso.
+      destruct (PI j i Hj0 ltac:(congruence) Ey Ne) as [_ B]. apply Nh. rewrite B. reflexivity. }
+    assert (Fr2 : free n (upd y j1 i) r).
+    { intros j Hj0. rewrite Yj. destruct (j =? j1)%nat; [exact Nr|apply Fr; auto]. }
+    destruct (IH (getn x i n) (upd x i j1) (upd y j1 i) f ND' ltac:(rewrite upd_length; auto) ltac:(rewrite upd_length; auto) OK2
+                ltac:(cbn [length] in *; lia) PI2 Fr2) as [x' [y' [E [Lx' [Ly' [PI' [Hr [_ [Keep Src]]]]]]]]].
+    exists x', y'. split; [exact E|]. split; auto. split; auto. split; auto. split; auto. split; [|split].
+    + apply Keep. rewrite Yj, Nat.eqb_refl. lia.
+    + intros j Hn. apply Keep. rewrite Yj. destruct (j =? j1)%nat; [lia|exact Hn].
+    + intros j. destruct (Src j) as [H|H]; [|right; right; exact H].
+      rewrite H, Yj. destruct (j =? j1)%nat; [right; left; reflexivity|left; reflexivity].
+Qed.
+End FlipInv.
